@@ -74,6 +74,7 @@ fn main() {
         "shutdown" => shutdown::run(&args),
         "registry" => registry::run(&args),
         "life" => life::run(&args),
+        "kill_window" => life::kill_window(&args),
         "worker_enqueue" => worker::run(&args),
         "worker_books" => worker::books(&args),
         "worker_fates" => worker::fates(&args),
@@ -102,6 +103,7 @@ fn main() {
         "select_rws" => select::rws(&args),
         "supervision" => supervision::run(&args),
         "link_race" => supervision::link_race(&args),
+        "draining_supervisor" => supervision::draining_supervisor(&args),
         "typegate" => mailbox::typegate(&args),
         "dequeue" => mailbox::dequeue(&args),
         "request" => mailbox::request(&args),
